@@ -288,3 +288,51 @@ Proof.
   do 7 eexists. split; [reflexivity|]. split; [vm_compute; reflexivity|].
   split; [vm_compute; reflexivity|]. vm_compute. reflexivity.
 Qed.
+
+(* ------------------------------------------------------------------ *)
+(* round 4 (review finding 5): locality at the REFINED level, in the filter / map form
+   the harness tests on the code: the refined peaks reported for map (s,c), in their
+   order, are the refined peaks of that map processed alone, re-indexed. *)
+Definition on_map_r (s c : nat) (p : rpeak) : bool :=
+  let '(_, _, s', c') := p in (s' =? s)%nat && (c' =? c)%nat.
+Definition reindex_r (s c : nat) (p : rpeak) : rpeak := let '(pt, v, _, _) := p in (pt, v, s, c).
+
+Lemma filter_map_comm {A B} : forall (g : B -> bool) (f : A -> B) l,
+  filter g (map f l) = map f (filter (fun a => g (f a)) l).
+Proof.
+  induction l as [|a l IH]; simpl; auto. destruct (g (f a)); simpl; now rewrite IH.
+Qed.
+
+Lemma on_map_r_refine : forall flat C p s c pk,
+  on_map_r s c (refine_peak_p flat C p pk) = on_map s c pk.
+Proof. intros flat C p s c [[[[x y] v] s'] c']. reflexivity. Qed.
+
+Lemma dims_single_C : forall m, fst (fst (dims [[m]])) = 1%nat.
+Proof. intro m. destruct m; reflexivity. Qed.
+
+Lemma refined_locality_p : forall cms thr p C H W s c m, dims cms = (C, H, W) -> rect C H W cms ->
+  map_at cms s c = Some m ->
+  filter (on_map_r s c) (local_peaks_p cms thr p) =
+  map (reindex_r s c) (local_peaks_p [[m]] thr p).
+Proof.
+  intros cms thr p C H W s c m Hd HR Hm.
+  unfold local_peaks_p at 1. rewrite Hd. rewrite filter_map_comm.
+  rewrite (filter_ext _ (on_map s c)) by (intro pk; apply on_map_r_refine).
+  rewrite (rough_locality _ _ _ _ _ _ _ _ Hd HR Hm).
+  unfold local_peaks_p. destruct (dims [[m]]) as [[C1 H1] W1] eqn:Hd1.
+  assert (HC1 : C1 = 1%nat) by (pose proof (dims_single_C m) as X; rewrite Hd1 in X; exact X).
+  subst C1. rewrite !map_map. apply map_ext_in. intros pk Hin.
+  apply (in_rough_raw _ _ _ _ _ _ Hd1) in Hin.
+  destruct Hin as [s0 [y [x [c0 [Hs0 [_ [_ [Hc0 Hc]]]]]]]].
+  apply in_cand in Hc. destruct Hc as [m' [v [_ [_ [_ ->]]]]].
+  simpl in Hs0. assert (s0 = 0%nat) by lia. assert (c0 = 0%nat) by lia. subst s0 c0.
+  cbn [reindex refine_peak_p reindex_r].
+  rewrite (box_index_correct _ _ _ _ _ _ _ HR Hm). reflexivity.
+Qed.
+
+(* the same for the radius-indexed model (odd sizes) *)
+Lemma refined_locality : forall cms thr r C H W s c m, dims cms = (C, H, W) -> rect C H W cms ->
+  map_at cms s c = Some m ->
+  filter (on_map_r s c) (local_peaks cms thr r) =
+  map (reindex_r s c) (local_peaks [[m]] thr r).
+Proof. intros. rewrite <- !local_peaks_p_odd. eapply refined_locality_p; eauto. Qed.
